@@ -244,7 +244,10 @@ def run(prop, tier, seed, replay=None, only_items=None):
             "wall_s": round(wall, 2),
             "violations": len(unlisted),
         }
-        with open(os.path.join(HERE, "evidence", f"{prop}.json"), "w") as f:
+        # (runs against a scratch copy with a seeded change applied write their evidence elsewhere: VERIF_EVIDENCE_DIR)
+        evdir = os.environ.get("VERIF_EVIDENCE_DIR") or os.path.join(HERE, "evidence")
+        os.makedirs(evdir, exist_ok=True)
+        with open(os.path.join(evdir, f"{prop}.json"), "w") as f:
             json.dump(ev, f, indent=1, default=repr)
     print(f"[{prop}] tier={tier} seed={seed} verdict={verdict} evaluations={evaluations} "
           f"nontrivial={len(nontrivial)} oracle_checks={checks} ambiguous={ambiguous} "
